@@ -29,6 +29,10 @@ int __CPROVER_uninterpreted_node_start_col(size_t i);
 #define NODE_START_COL(i) 0
 #endif
 typedef struct Parser { int m_filename; Position m_position; size_t match_stack_size; } Parser;
+void verif_parse_internal(Parser *self); /* parse_internal: re-seats cursor, file name and match stack */
+/* eval_error::call_stack seen as (length, last node appended) */
+typedef struct vcallstack { size_t n; int last; } vcallstack;
+static inline void vcallstack_push_back(vcallstack *cs, int node) { cs->n = cs->n + 1; cs->last = node; }
 void File_Position_ctor(File_Position *self, int t_file_line, int t_file_column);
 void Parse_Location_ctor(Parse_Location *self, int t_fname, const int t_start_line, const int t_start_col, const int t_end_line, const int t_end_col);
 static inline Parse_Location verif_make_location(int fname, int sl, int sc, int el, int ec) { Parse_Location l; Parse_Location_ctor(&l, fname, sl, sc, el, ec); return l; }
@@ -112,9 +116,79 @@ def build(prop, tier="quick"):
     c = C("make_node_location")
     kb.emit_function("Parse_Location make_node_location(const Parser *self, const int t_prev_line, const int t_prev_col)", msl, r, c.fn, c.loops, "make_node_location")
     H("make_node_location", "const Parser *p; int a, b;", "make_node_location(p, a, b)")
+    # --- parse_instr_eval ("${...}" inside a string): the nested parse must not leak its file name / cursor / match stack
+    c = C("verif_parse_internal")
+    kb.emit_stub("void verif_parse_internal(Parser *self)", c.fn, "verif_parse_internal")
+    kb.functions.append("verif_parse_internal (assumed: parse_internal re-seats m_position, m_filename and the match stack arbitrarily)")
+    pie = ph.slice_function("eval::AST_Node_Impl_Ptr<Tracer> parse_instr_eval(const std::string &t_input)")
+    r = Rules("parse_instr_eval")
+    r.add("R8.pos", r"\bauto last_position = m_position;", "const Position last_position = self->m_position;")
+    r.add("R8.fname", r"\bauto last_filename = m_filename;", "const int last_filename = self->m_filename;")
+    r.add("R8.stack", r"\bauto last_match_stack = std::exchange\(m_match_stack, decltype\(m_match_stack\)\{\}\);",
+          "const size_t last_match_stack = self->match_stack_size; self->match_stack_size = 0;")
+    r.add("R4.pi", r"\bauto retval = parse_internal\(t_input, \"instr eval\"\);", "verif_parse_internal(self);", min_fire=1)
+    r.add("R9.rpos", r"\bm_position = std::move\(last_position\);", "self->m_position = last_position;")
+    r.add("R9.rfname", r"\bm_filename = std::move\(last_filename\);", "self->m_filename = last_filename;")
+    r.add("R9.rstack", r"\bm_match_stack = std::move\(last_match_stack\);", "self->match_stack_size = last_match_stack;")
+    r.add("R9.ret", r"\breturn eval::AST_Node_Impl_Ptr<Tracer>\(dynamic_cast<eval::AST_Node_Impl<Tracer> \*>\(retval\.release\(\)\)\);", "return;", min_fire=1)
+    r.extend(base_rules())
+    c = C("parse_instr_eval")
+    kb.emit_function("void Parser_parse_instr_eval(Parser *self)", pie, r, c.fn, c.loops, "Parser_parse_instr_eval")
+    H("Parser_parse_instr_eval", "Parser *p;", "Parser_parse_instr_eval(p)", replace=["verif_parse_internal"])
+
+    # --- AST_Node_Impl::eval: what the handler does while an eval_error unwinds through a node
+    ev = chai2c.Header("include/chaiscript/language/chaiscript_eval.hpp")
+    ist = ev.slice_block("struct AST_Node_Impl : AST_Node")
+    es = ev.slice_function("Boxed_Value eval(const chaiscript::detail::Dispatch_State &t_e) const final", after=ist.ob)
+    hm = re.search(r"\bcatch \(exception::eval_error &ee\)\s*\{", es.body)
+    if not hm:
+        raise ExtractionBreak("AST_Node_Impl::eval: `catch (exception::eval_error &ee)` not found")
+    hob = es.ob + 1 + hm.end() - 1
+    hcb = chai2c.match_brace(ev.masked, hob)
+    hsl = chai2c.Slice(ev, "AST_Node_Impl::eval: eval_error handler", es.ob + 1 + hm.start(), hob, hcb)
+    for name, val in re.findall(r"static constexpr (?:std::)?size_t (\w+) = (\d+);", chai2c.strip_comments(ist.body)):
+        kb.add("#define %s %s /* static constexpr member of AST_Node_Impl */" % (name, val))
+    r = Rules("eval_handler")
+    r.add("R9.push", r"\bee\.call_stack\.push_back\(\*this\);", "vcallstack_push_back(cs, self);")
+    r.add("R9.size", r"\bee\.call_stack\.size\(\)", "cs->n")
+    r.add("R5.rethrow", r"\bthrow;", "return; /* rethrow: the error goes on to the enclosing node */", min_fire=1)
+    r.extend(base_rules())
+    c = C("AST_Node_Impl_eval_handler")
+    kb.emit_function("void AST_Node_Impl_eval_handler(vcallstack *cs, int self)", hsl, r, c.fn, c.loops, "AST_Node_Impl_eval_handler")
+    H("AST_Node_Impl_eval_handler", "vcallstack *c; int n;", "AST_Node_Impl_eval_handler(c, n)")
+    kb.static_facts.append(rebuild_fact())
     kb.assumptions += ["the shared file-name string is an interned id; the start coordinates of the nodes on the match stack are uninterpreted functions of their index",
                        "the cursor's own line / column bookkeeping is kernel K1 (step and undo lemmas)"]
     kb.unverified += ["which Position a grammar rule captures as `start` before it calls make_node (per-rule, ~50 functions)",
                       "optimizer passes that rebuild nodes and choose a location for them",
-                      "the call stack appended while an eval_error unwinds (AST_Node_Impl::eval's catch block: exception semantics)"]
+                      "that the handler of AST_Node_Impl::eval is reached for every node the error passes (C++ exception semantics, A2-like)"]
     return kb
+
+
+def rebuild_fact():
+    """supporting static fact: when an optimizer pass rebuilds a node it gives the new node the location of the node whose
+    text (and children) it takes - `make_unique<...>(X->text, X->location, ...)` - and a folded constant the location of the
+    node it replaces."""
+    op = chai2c.Header("include/chaiscript/language/chaiscript_optimizer.hpp")
+    txt = chai2c.strip_comments(op.text)
+    m = chai2c._mask(txt)
+    bad, unknown, n = [], [], 0
+    for mm in re.finditer(r"\bmake_unique<[^;()]*>\(", m):
+        o = mm.end() - 1
+        cp = chai2c.match_brace(m, o, "(", ")")
+        args = " ".join(txt[o + 1:cp].split())
+        line = txt.count("\n", 0, mm.start()) + 1
+        a = re.match(r"(\w+)(?:->|\.)text, (\w+)(?:->|\.)location\b", args)
+        b = re.match(r"std::move\(match\), (\w+)(?:->|\.)location\b", args)
+        if a:
+            n += 1
+            if a.group(1) != a.group(2):
+                bad.append("line %d: text of `%s` with the location of `%s`" % (line, a.group(1), a.group(2)))
+        elif b:
+            n += 1
+            if b.group(1) != "node":
+                bad.append("line %d: folded constant with the location of `%s`" % (line, b.group(1)))
+        elif "location" in args:
+            unknown.append("line %d: %s" % (line, args[:100]))
+    return ("optimizer_passes_rebuild_a_node_with_the_location_of_the_node_they_take_the_text_from", False if bad else (None if unknown else True),
+            "; ".join(bad + unknown) or "%d rebuild sites" % n)
